@@ -279,7 +279,59 @@ def _r023(ctx: Ctx) -> None:
                        key=f'{q.split(".")[-1]}.{name}|stabilizer_types')
 
 
+# ------------------------------------------------------------------- R02.4
+
+def _r024(ctx: Ctx) -> None:
+    """Derived indices of StabilizerCode on an abstract code defined through the coordinate API."""
+    from .c08 import _HDeform, QS, STABS, LOGX, LOGZ
+    from ..interp import Env, BoundMethod
+    m = ctx.model
+    ci = m.cls('StabilizerCode')
+    mi = ci.module
+    init = ci.find_method('__init__')
+
+    def read(attr):
+        hooks = _HDeform()
+        it = Interp(m, hooks)
+
+        def thunk():
+            o = Obj(ci, 'code')
+            it.call_closure(Closure(init[1], mi, ci), [2, 2], {}, init[1], self_obj=o)
+            return it.getattr(o, attr, init[1])
+        outs = guard('R02.4', mi, init[1])(lambda: it.explore(thunk))
+        ctx.need(len(outs) == 1, 'R02.4', site_of(mi, ci.node), f'{attr}: {outs!r}')
+        return outs[0].value if outs[0].kind == 'return' else f'raises {outs[0].exc}'
+
+    def bsf(op):
+        v = [0] * (2 * len(QS))
+        for q, p in op.items():
+            i = QS.index(q)
+            if p in 'XY':
+                v[i] = 1
+            if p in 'YZ':
+                v[len(QS) + i] = 1
+        return v
+    want = {
+        'qubit_coordinates': list(QS), 'stabilizer_coordinates': list(STABS),
+        'qubit_index': {q: i for i, q in enumerate(QS)}, 'stabilizer_index': {s_: i for i, s_ in enumerate(STABS)},
+        'n': len(QS), 'n_stabilizers': len(STABS), 'k': len(LOGX),
+        'logicals_x': [bsf(o) for o in LOGX], 'logicals_z': [bsf(o) for o in LOGZ],
+        'stabilizer_matrix': [bsf(STABS[s_]) for s_ in STABS],
+        'size': (2, 2),
+    }
+    for attr, w in want.items():
+        r = ci.find_method(attr)
+        ctx.need(r is not None, 'R02.4', site_of(mi, ci.node), f'StabilizerCode.{attr} not found')
+        v = _aslist(read(attr))
+        if isinstance(v, (int, np.integer)):
+            v = int(v)
+        ctx.ob('R02.4', site_of(mi, r[1]), f'StabilizerCode.{attr} on a code defined by coordinate lists', v == w,
+               f'got {v!r}, expected {w!r} (indices are positions in the coordinate lists; rows follow that order)',
+               key=f'StabilizerCode.{attr}|derived', facts=repr(v))
+
+
 def run(ctx: Ctx) -> None:
+    ctx.rule('R02.4', 'derived indices (qubit_index, stabilizer_index, n, k, logicals, matrix) follow the coordinate lists', floor=11)
     ctx.rule('R02.1', 'matrix rows / to_bsf / from_bsf / site are the BSF image and its inverse', floor=6)
     ctx.rule('R02.2', 'row masks, Hx/Hz blocks, syndrome parts and is_css take the right block and mask', floor=12)
     ctx.rule('R02.3', 'no hash-ordered container defines qubit, stabilizer or logical order', floor=60)
@@ -288,3 +340,4 @@ def run(ctx: Ctx) -> None:
     stabilizer_code_tables(ctx, 'R02.1')
     _r022(ctx)
     _r023(ctx)
+    _r024(ctx)
